@@ -57,6 +57,17 @@ pub fn gen_scenario(seed: u64) -> C27Scenario {
         if rng.chance(2, 3) {
             steps.push(Step::Write { path: slot.path.to_string(), content: ugly });
         }
+        // ... and files whose layout depends on a formatter attribute (fmt(skip) around a
+        // hand-made layout, fmt(compact) on an expanded instance)
+        if rng.chance(1, 2) {
+            for u in wgen::shapes::units() {
+                if u.name == "fmtattr" {
+                    for sl in &u.slots {
+                        steps.push(Step::Write { path: sl.path.to_string(), content: rng.pick(&sl.variants).to_string() });
+                    }
+                }
+            }
+        }
     }
     C27Scenario { base: Scenario { project: g.project, steps, seed }, mode: mode.into() }
 }
